@@ -18,7 +18,11 @@ use rand::rngs::StdRng;
 use rand::{Rng, SeedableRng};
 use serde_json::{json, Value};
 
-pub struct Seed { pub id: String, pub target: &'static str, pub bytes: Vec<u8>, pub spans: Vec<cfkit::parse::Span> }
+pub struct Seed { pub id: String, pub target: &'static str, pub bytes: Vec<u8>, pub spans: Vec<cfkit::parse::Span>, pub grow: &'static str }
+
+/// Grown structures (fault model: GrowSizes): kind -> target parser.
+const GROW: &[(&str, &str)] = &[("anno_array", "class"), ("anno_anno", "class"), ("ifc_args", "class"), ("method_args", "class"), ("labels", "class"),
+	("enigma_nest", "enigma"), ("tiny_nest", "tiny"), ("fdesc_dims", "fdesc"), ("mdesc_dims", "mdesc"), ("desc_args", "mdesc")];
 
 const QUICK_SAMPLES: &[&str] = &["minimal_object", "exception_table", "switches", "frames_each_kind", "annotations_all_element_kinds", "type_annotations_code",
 	"indy_condy_unreferenced_bootstrap", "inner_classes", "local_variable_tables", "record", "module_info", "invokes", "wide_locals"];
@@ -35,19 +39,22 @@ pub fn seeds(tier: &str) -> Result<Vec<Seed>> {
 		if tier != "thorough" && !QUICK_SAMPLES.contains(&name.as_str()) { continue; }
 		let Ok(bytes) = cfkit::asm::assemble(&facts, &cfkit::asm::Encoding::default()) else { continue };
 		let Ok(p) = cfkit::parse::parse_class(&bytes) else { continue };
-		out.push(Seed { id: format!("sample/{name}"), target: "class", bytes, spans: p.spans });
+		out.push(Seed { id: format!("sample/{name}"), target: "class", bytes, spans: p.spans, grow: "" });
 	}
 	// two small javac classes
 	let mut corpus = cfkit::corpus::corpus_classes("quick");
 	corpus.sort_by_key(|(id, b)| (b.len(), id.clone()));
 	for (id, bytes) in corpus.into_iter().filter(|(id, b)| b.len() > 300 && (id.contains("Lambdas") || id.contains("Switches") || id.contains("Exceptions"))).take(if tier == "thorough" { 6 } else { 2 }) {
-		if let Ok(p) = cfkit::parse::parse_class(&bytes) { out.push(Seed { id: format!("corpus/{id}"), target: "class", bytes, spans: p.spans }); }
+		if let Ok(p) = cfkit::parse::parse_class(&bytes) { out.push(Seed { id: format!("corpus/{id}"), target: "class", bytes, spans: p.spans, grow: "" }); }
 	}
 	for (t, s) in [("tiny", TINY), ("tinydiff", TINYDIFF), ("enigma", ENIGMA), ("nests", NESTS)] {
-		out.push(Seed { id: format!("text/{t}"), target: t, bytes: s.as_bytes().to_vec(), spans: vec![] });
+		out.push(Seed { id: format!("text/{t}"), target: t, bytes: s.as_bytes().to_vec(), spans: vec![], grow: "" });
 	}
 	for (i, (t, s)) in DESCS.iter().enumerate() {
-		out.push(Seed { id: format!("desc/{i}"), target: t, bytes: s.as_bytes().to_vec(), spans: vec![] });
+		out.push(Seed { id: format!("desc/{i}"), target: t, bytes: s.as_bytes().to_vec(), spans: vec![], grow: "" });
+	}
+	for (kind, target) in GROW {
+		out.push(Seed { id: format!("grow/{kind}"), target, bytes: vec![], spans: vec![], grow: kind });
 	}
 	Ok(out)
 }
@@ -70,8 +77,8 @@ pub fn seeds_json(tier: &str) -> Result<Vec<Value>> {
 			json!({"off": sp.off, "len": sp.len, "role": sp.role, "cls": sp.class, "own": own, "val": val})
 		}).collect();
 		let text = String::from_utf8_lossy(&s.bytes).to_string();
-		let cells: Vec<usize> = if s.spans.is_empty() && !s.target.ends_with("desc") { text.lines().map(|l| split_line(s.target, l).1.len()).collect() } else { vec![] };
-		out.push(json!({"id": s.id, "target": s.target, "n": s.bytes.len(), "spans": spans, "cells": cells}));
+		let cells: Vec<usize> = if s.spans.is_empty() && !s.target.ends_with("desc") && s.grow.is_empty() { text.lines().map(|l| split_line(s.target, l).1.len()).collect() } else { vec![] };
+		out.push(json!({"id": s.id, "target": s.target, "n": s.bytes.len(), "spans": spans, "cells": cells, "grow": s.grow}));
 	}
 	Ok(out)
 }
@@ -83,6 +90,7 @@ pub fn apply(seed: &Seed, ops: &Value) -> Result<Vec<u8>> {
 		let name = op[0].as_str().context("op name")?;
 		let n = |i: usize| op[i].as_i64().unwrap_or(0);
 		match name {
+			"grow" => { b = grow(op[1].as_str().context("grow kind")?, n(2).max(0) as usize)?; },
 			"trunc" => { let k = (n(1).max(0) as usize).min(b.len()); b.truncate(k); },
 			"byte" => { let o = n(1) as usize; if o < b.len() { b[o] = n(2) as u8; } },
 			"set" => {
@@ -118,6 +126,7 @@ pub fn apply(seed: &Seed, ops: &Value) -> Result<Vec<u8>> {
 						"tag" => { cells[0] = "zz".into(); },
 						"dupline" => { let l = lines[li].clone(); lines.insert(li, l); },
 						"delline" => { lines.remove(li); },
+						"backslash" => { let mut l = lines[li].clone(); l.push(b'\\'); raw = Some(l); },
 						"nonutf8" => { let mut l = lines[li].clone(); l.extend_from_slice(&[0xff, 0xfe, 0xc0]); raw = Some(l); },
 						o => bail!("unknown text op {o}"),
 					}
@@ -134,6 +143,115 @@ pub fn apply(seed: &Seed, ops: &Value) -> Result<Vec<u8>> {
 		}
 	}
 	Ok(b)
+}
+
+// ---------------------------------------------------------------- grown inputs
+
+/// Byte-level constant pool for the grown classes (nothing of cfkit or duke: the inputs must not depend on either).
+struct GPool { bytes: Vec<u8>, count: u16 }
+impl GPool {
+	fn new() -> GPool { GPool { bytes: vec![], count: 1 } }
+	fn utf8(&mut self, s: &str) -> u16 {
+		self.bytes.push(1);
+		self.bytes.extend_from_slice(&(s.len() as u16).to_be_bytes());
+		self.bytes.extend_from_slice(s.as_bytes());
+		self.count += 1;
+		self.count - 1
+	}
+	fn class(&mut self, name: &str) -> u16 { let n = self.utf8(name); self.bytes.push(7); self.bytes.extend_from_slice(&n.to_be_bytes()); self.count += 1; self.count - 1 }
+	fn nat(&mut self, name: &str, desc: &str) -> u16 {
+		let (n, d) = (self.utf8(name), self.utf8(desc));
+		self.bytes.push(12); self.bytes.extend_from_slice(&n.to_be_bytes()); self.bytes.extend_from_slice(&d.to_be_bytes());
+		self.count += 1;
+		self.count - 1
+	}
+	fn imethod(&mut self, class: &str, name: &str, desc: &str) -> u16 {
+		let (c, nt) = (self.class(class), self.nat(name, desc));
+		self.bytes.push(11); self.bytes.extend_from_slice(&c.to_be_bytes()); self.bytes.extend_from_slice(&nt.to_be_bytes());
+		self.count += 1;
+		self.count - 1
+	}
+}
+fn u2(v: &mut Vec<u8>, x: u16) { v.extend_from_slice(&x.to_be_bytes()); }
+fn u4(v: &mut Vec<u8>, x: u32) { v.extend_from_slice(&x.to_be_bytes()); }
+
+/// class A { public static m<mdesc> { <code> } } with the given exception rows, Code attributes and class attributes (raw bytes with their counts)
+fn gclass(mut pool: GPool, mdesc: &str, code: &[u8], exc: &[[u16; 4]], code_attrs: (u16, Vec<u8>), class_attrs: (u16, Vec<u8>)) -> Vec<u8> {
+	let (this, sup, mname, md, codename) = (pool.class("A"), pool.class("java/lang/Object"), pool.utf8("m"), pool.utf8(mdesc), pool.utf8("Code"));
+	let mut o = vec![];
+	u4(&mut o, 0xCAFEBABE); u2(&mut o, 0); u2(&mut o, 52);
+	u2(&mut o, pool.count); o.extend_from_slice(&pool.bytes);
+	u2(&mut o, 0x0021); u2(&mut o, this); u2(&mut o, sup);
+	u2(&mut o, 0); u2(&mut o, 0); u2(&mut o, 1);
+	u2(&mut o, 0x0009); u2(&mut o, mname); u2(&mut o, md); u2(&mut o, 1);
+	u2(&mut o, codename);
+	u4(&mut o, (2 + 2 + 4 + code.len() + 2 + exc.len() * 8 + 2 + code_attrs.1.len()) as u32);
+	u2(&mut o, 300); u2(&mut o, 300);
+	u4(&mut o, code.len() as u32); o.extend_from_slice(code);
+	u2(&mut o, exc.len() as u16);
+	for e in exc { for x in e { u2(&mut o, *x); } }
+	u2(&mut o, code_attrs.0); o.extend_from_slice(&code_attrs.1);
+	u2(&mut o, class_attrs.0); o.extend_from_slice(&class_attrs.1);
+	o
+}
+
+/// The grown input of the fault model: structure `kind` at size `k`.
+pub fn grow(kind: &str, k: usize) -> Result<Vec<u8>> {
+	Ok(match kind {
+		// RuntimeVisibleAnnotations on the class: one annotation whose value is k arrays (annotations) inside each other
+		"anno_array" | "anno_anno" => {
+			let mut pool = GPool::new();
+			let (rva, ty, name) = (pool.utf8("RuntimeVisibleAnnotations"), pool.utf8("LAnn;"), pool.utf8("value"));
+			let mut a = vec![];
+			u2(&mut a, 1); u2(&mut a, ty); u2(&mut a, 1); u2(&mut a, name);
+			for _ in 0..k {
+				if kind == "anno_array" { a.push(b'['); u2(&mut a, 1); } else { a.push(b'@'); u2(&mut a, ty); u2(&mut a, 1); u2(&mut a, name); }
+			}
+			a.push(b'['); u2(&mut a, 0);
+			let mut attr = vec![];
+			u2(&mut attr, rva); u4(&mut attr, a.len() as u32); attr.extend_from_slice(&a);
+			gclass(pool, "()V", &[0xb1], &[], (0, vec![]), (1, attr))
+		},
+		// invokeinterface of a method with k long parameters (2 slots each; the count operand is a byte)
+		"ifc_args" => {
+			let mut pool = GPool::new();
+			let m = pool.imethod("I", "x", &format!("({})V", "J".repeat(k)));
+			let [a, b] = m.to_be_bytes();
+			gclass(pool, "()V", &[0xb9, a, b, 1, 0, 0xb1], &[], (0, vec![]), (0, vec![]))
+		},
+		// the method itself declares k long parameters
+		"method_args" => gclass(GPool::new(), &format!("({})V", "J".repeat(k)), &[0xb1], &[], (0, vec![]), (0, vec![])),
+		// a label at every bytecode offset of a method of maximal length
+		"labels" => {
+			let mut pool = GPool::new();
+			let (lnt, lvt, vname, vdesc) = (pool.utf8("LineNumberTable"), pool.utf8("LocalVariableTable"), pool.utf8("v"), pool.utf8("I"));
+			let mut code = vec![0u8; 65534];
+			code.push(0xb1);
+			let mut attrs = vec![];
+			u2(&mut attrs, lnt); u4(&mut attrs, 2 + 65535 * 4); u2(&mut attrs, 65535);
+			for pc in 0..65535u16 { u2(&mut attrs, pc); u2(&mut attrs, 1); }
+			let mut n = 1;
+			if k >= 2 { u2(&mut attrs, lvt); u4(&mut attrs, 2 + 10); u2(&mut attrs, 1); u2(&mut attrs, 0); u2(&mut attrs, 65535); u2(&mut attrs, vname); u2(&mut attrs, vdesc); u2(&mut attrs, 0); n += 1; }
+			let exc: Vec<[u16; 4]> = if k >= 1 { vec![[0, 65535, 0, 0]] } else { vec![] };
+			gclass(pool, "()V", &code, &exc, (n, attrs), (0, vec![]))
+		},
+		// CLASS lines nested line by line
+		"enigma_nest" => {
+			let mut s = String::new();
+			for i in 0..k { for _ in 0..i { s.push('\t'); } s.push_str(if i == 0 { "CLASS A x/A\n" } else { "CLASS B B\n" }); }
+			s.into_bytes()
+		},
+		// a Tiny v2 file whose lines step in by one tab each (comments below a class)
+		"tiny_nest" => {
+			let mut s = String::from("tiny\t2\t0\ta\tb\nc\tA\tx/A\n");
+			for i in 0..k { for _ in 0..=i { s.push('\t'); } s.push_str("c\tcomment\n"); }
+			s.into_bytes()
+		},
+		"fdesc_dims" => format!("{}I", "[".repeat(k)).into_bytes(),
+		"mdesc_dims" => format!("({}I)V", "[".repeat(k)).into_bytes(),
+		"desc_args" => format!("({})V", "J".repeat(k)).into_bytes(),
+		o => bail!("unknown grow kind {o}"),
+	})
 }
 
 // ---------------------------------------------------------------- child side
@@ -260,7 +378,7 @@ pub fn exec(v: &Value) -> Result<Value> {
 pub fn gen(seed: u64, n: usize) -> Result<Vec<Value>> {
 	let mut r = StdRng::seed_from_u64(seed ^ 0xC16);
 	let tier = std::env::var("VERIF_TIER_SEEDS").unwrap_or_else(|_| "thorough".into());
-	let all = seeds(&tier)?;
+	let all: Vec<Seed> = seeds(&tier)?.into_iter().filter(|s| s.grow.is_empty()).collect();
 	let mut out = vec![];
 	while out.len() < n {
 		let s = &all[r.gen_range(0..all.len())];
